@@ -84,6 +84,10 @@ def strategy_(draw):
         has_mv = draw(st.booleans())
         if has_mv:
             master["vars"] = [{"name": "mv0", "rows": 1, "cols": 1, "grid": ""}]
+        has_mp = has_mv and draw(st.booleans())
+        if has_mp:
+            # the parent owns a parameter next to its variable
+            master["params"] = [{"name": "mp0", "rows": 1, "cols": 1, "grid": "", "value": [[draw(gen.small())]]}]
         coupling, pobj = [], []
         for i in range(n - 1):
             a = gen.leaves_of([d for d in stages[i]["states"] if not d.get("quad")])[0]
@@ -101,8 +105,8 @@ def strategy_(draw):
             if stages[i + 1]["t0"][0] == "free":
                 coupling.append({"lhs": [["-", ["tf", "s%d" % i], ["t0", "s%d" % (i + 1)]]], "rel": "==", "rhs": [E.C(0.0)]})
         if has_mv:
-            pobj.append(["sq", ["-", E.S("mv0"), E.C(0.5)]])
-            coupling.append({"lhs": [E.S("mv0")], "rel": "<=", "rhs": [E.C(2.0)]})
+            pobj.append(["sq", ["-", E.S("mv0"), E.S("mp0") if has_mp else E.C(0.5)]])
+            coupling.append({"lhs": [E.S("mv0")], "rel": "<=", "rhs": [["+", E.C(2.0), ["*", E.C(0.5), E.S("mp0")]] if has_mp else E.C(2.0)]})
         for i in range(n):
             if stages[i]["T"][0] == "free" and draw(st.booleans()):
                 pobj.append(["*", E.C(draw(gen.small())), ["T", "s%d" % i]])
@@ -160,6 +164,8 @@ def classify(case):
             labs.append("free-time stage")
         if sp["vars"]:
             labs.append("parent variable")
+        if sp["params"]:
+            labs.append("parent parameter")
         if any(c.get("on") for c in sp["coupling"]):
             labs.append("coupling declared on a sub-stage")
         return sorted(set(labs))
@@ -203,6 +209,18 @@ def check_compose(case, ctx):
             rawC[s["name"] + "|" + k] = v
     for d in sp["vars"]:
         rawC["main|glob:" + d["name"]] = B.ocp.value(B.syms[d["name"]])
+    # the parent's own symbols resolve to what they were declared as: a variable to one decision variable, a parameter to its value
+    for d in sp["vars"]:
+        names = [q.name() for q in ca.symvar(ca.MX(B.ocp.value(B.syms[d["name"]])))]
+        if not names or any("_x_" not in n for n in names):     # Opti names decision variables opti<k>_x_<i>, parameters opti<k>_p_<i>
+            return [Fail("parent-variable-not-a-decision-variable", feats, {"name": d["name"], "resolves_to": names})]
+    if sp["params"]:
+        pv = {"pp:" + d["name"]: B.ocp.value(B.syms[d["name"]]) for d in sp["params"]}
+        nC.add_all(pv)
+        r0 = nC.eval(rng.uniform(-1, 1, nC.nx))
+        for d in sp["params"]:
+            if not close(r0["pp:" + d["name"]].reshape(-1), np.array(d["value"], dtype=float).reshape(-1), 1e-12, 1e-12):
+                return [Fail("parent-parameter-value", feats, {"name": d["name"], "value()": r0["pp:" + d["name"]], "set": d["value"]})]
     dC = Dictionary(nC, rawC, rng)
     if not dC.covers():
         raise HarnessInconclusive("dictionary does not cover the composite NLP")
@@ -248,6 +266,8 @@ def check_compose(case, ctx):
             data = ref.override_params(obs.unpack(rc, s["name"]), s, s["method"]["N"])
             trajs[s["name"]] = ref.Traj(ref.StageRef(s), data, s["method"]["M"])
         glob = {d["name"]: np.array([q[dC.index[("main|glob:" + d["name"], 0)]]]) for d in sp["vars"]}
+        for d in sp["params"]:
+            glob[d["name"]] = np.array(d["value"], dtype=float).reshape(-1)
         trajs["main"] = MainTraj(glob)
         parent = float(sum(ref.ev_top(t, trajs) for t in sp.get("parent_objective", [])))
         if not close(rc["f"], f_sum + parent, 1e-9, 1e-9):
